@@ -67,6 +67,12 @@ func (o *overlayer) overlayField(base, overlay reflect.Value) error {
 			//  we're done here
 			return nil
 		}
+		if base.Type().Elem().Kind() != reflect.Struct {
+			// a user-declared pointer to a non-struct type (e.g. *int) is not
+			// pointerified any further: the later layer replaces the pointer.
+			base.Set(overlay)
+			return nil
+		}
 		// both pointers are non-nil, and it's a pointerified struct.
 		return o.overlayStruct(base.Elem(), overlay.Elem())
 	case reflect.Interface:
